@@ -12,7 +12,7 @@ sys.path.insert(0, ROOT)
 VENV_PY = '/venv/bin/python'
 LOCK = os.path.join(ROOT, 'obligations.lock')
 KNOWN = os.path.join(ROOT, 'known-findings.json')
-CONTRACT_MODULES = ['dfa', 'nfa', 'regexp', 'tm', 'pda', 'cfg', 'lang', 'misc']
+CONTRACT_MODULES = ['dfa', 'nfa', 'regexp', 'tm', 'pda', 'cfg', 'lang', 'misc', 'parse']
 
 
 def load_contracts():
